@@ -161,6 +161,23 @@ pub fn codes_to_string(codes: &[u8]) -> String {
         .collect()
 }
 
+/// Inverse of `codes_to_string` (used by direct replays)
+pub fn string_to_codes(s: &str) -> Vec<u8> {
+    const T: &[u8; 16] = b"ACGTNRYSWKMBDHVU";
+    s.bytes()
+        .map(|c| match T.iter().position(|&t| t == c) {
+            Some(p) => p as u8,
+            None => {
+                if c == b'?' {
+                    30
+                } else {
+                    31
+                }
+            }
+        })
+        .collect()
+}
+
 pub fn clip(s: &str, n: usize) -> String {
     if s.len() <= n {
         s.to_string()
